@@ -46,7 +46,8 @@ RStream(e, st, m) ==
                     faithful |-> /\ r.id \in 1 .. e.N
                                  /\ r.seq = InpOf(e, r.id, m).seq
                                  /\ r.qual = InpOf(e, r.id, m).qual,
-                    reason |-> \E t \in DOMAIN r.tags : r.tags[t][1] = "RR" ]] ]
+                    reason |-> \E t \in DOMAIN r.tags : r.tags[t][1] = "RR",
+                    reasonGiven |-> \E t \in DOMAIN r.tags : r.tags[t][1] = "RR" /\ r.tags[t][2] # "" ]] ]
 
 (* a sink whose mate file is missing is reported by the driver with nlines = -1 (never well formed) *)
 ObsOf(e) ==
@@ -73,6 +74,7 @@ RunVerdict(e) ==
              v == PVerdict(o)
          IN IF v # "ok" THEN v
             ELSE IF ~o.raised /\ e.yields_foreign # 0 THEN "Inv_C01_Counters"
+            ELSE IF o.K = 1 /\ ~PRejectReasonGiven(o) THEN "Inv_C01_RejectReason"    \* K > 1: reported as a note only
             ELSE "ok"
 
 (* spec -> code: a replayed TLC scenario predicts the id/strategy sequence of every sink; a run  *)
